@@ -26,8 +26,9 @@ Two layers.
     `exclusiveMinimum` / `exclusiveMaximum` of JSON Schema 2020-12, same conversion as `gte` / `lte`;
   - 64-bit kinds are `type: string` unless `int64_encoding = NUMBER`; the numeric keywords are
     attached all the same;
-  - `const` / `in` values are untagged YAML scalars, re-typed by the reader (`yamlScalar`);
-    `string.const = ""` makes the renderer dereference a nil document (`Impl.crashes`);
+  - numeric `const` / `in` values are untagged YAML scalars; STRING ones are tagged `!!str`
+    (`stringLit`; before that fix they were untagged too, re-typed by the reader — `yamlScalar` —
+    and `string.const = ""` made the renderer dereference a nil document: `crashesBeforeFix`);
   - `*int64` keyword values (`minLength`, `maxItems`, ...) are `int64(uint64)` conversions and
     are dropped by the renderer when they are `0`;
   - numeric bounds pass through `float64(...)`; in the `float` group that is `float64(float32)`,
@@ -441,10 +442,21 @@ def stringAnn (r : FieldRules) : List (Str × Json) :=
   (match r.pattern with | some (c :: p) => [(K.pattern, Json.str (c :: p))] | _ => []) ++
   optKw K.format (r.format.map fun f => S (formatName f))
 
-def stringCore (r : FieldRules) : List (Str × Json) :=
+/-- `applyStringConstraints`, over the way a `const` / `in` literal is stored (`lit`). -/
+def stringCoreWith (lit : Str → Json) (r : FieldRules) : List (Str × Json) :=
   countKw K.minLength r.minLen ++ countKw K.maxLength r.maxLen ++
-  (if r.strIn.isEmpty then [] else [(K.enum, Json.arr (r.strIn.map yamlScalar))]) ++
-  optKw K.const (r.strConst.map yamlScalar)
+  (if r.strIn.isEmpty then [] else [(K.enum, Json.arr (r.strIn.map lit))]) ++
+  optKw K.const (r.strConst.map lit)
+
+/-- `stringNode` (since /repo `fix: openapi: string literals are tagged !!str`): the scalar carries the
+tag `!!str`, so the emitter quotes whatever a reader could take for something else and the document
+shows the string itself. -/
+def stringLit (v : Str) : Json := .str v
+
+def stringCore (r : FieldRules) : List (Str × Json) := stringCoreWith stringLit r
+
+/-- before that fix: untagged plain scalars, re-typed by the reader (`yamlScalar`). Regression witness only. -/
+def stringCoreBeforeFix (r : FieldRules) : List (Str × Json) := stringCoreWith yamlScalar r
 
 
 /-- the scalar part of `extractValidationConstraints`: the getters return nil when the rules
@@ -531,9 +543,22 @@ def fieldSchemaN (nullable : Bool) (k : FKind) (c : FCard) (int64Number : Bool) 
 def fieldSchemaJsonN (nullable : Bool) (k : FKind) (c : FCard) (int64Number : Bool) (r : FieldRules) : Json :=
   if nullable && c.isScalar then makeNullable (fieldSchemaJson k c int64Number r) else fieldSchemaJson k c int64Number r
 
-/-- rendering `const: ""` dereferences a nil YAML document: the plugin dies without an answer. -/
-def crashes (k : FKind) (c : FCard) (r : FieldRules) : Bool :=
+/-- before the `!!str` fix, rendering `const: ""` dereferenced a nil YAML document: the plugin died
+without an answer. Regression witness only. -/
+def crashesBeforeFix (k : FKind) (c : FCard) (r : FieldRules) : Bool :=
   c.isScalar && k == .string && r.strConst == some []
+
+/-- no rule makes the renderer die any more. -/
+def crashes (_k : FKind) (_c : FCard) (_r : FieldRules) : Bool := false
+
+/-- the schema of a singular string field before the `!!str` fix. Regression witness only. -/
+def stringSchemaBeforeFix (r : FieldRules) : Json :=
+  .obj ((stringAnn r ++ baseAnn .string false) ++ (stringCoreBeforeFix r ++ baseCore .string false))
+
+def stringSchemaJsonBeforeFix (r : FieldRules) : Json :=
+  match stringSchemaBeforeFix r with
+  | .obj kvs => .obj (kvs.map json11Kw)
+  | s => s
 
 /-- `buildObjectSchema`: the JSON names of the fields whose rules say `required`, in field order. -/
 def requiredList (fields : List (Str × FieldRules)) : List Str :=
@@ -584,8 +609,7 @@ def inTheoremDomain (k : FKind) (c : FCard) (int64Number : Bool) (r : FieldRules
   match c with
   | .single | .optional =>
     (match k with
-     | .string => countOKB r.minLen && countPosB r.maxLen && r.strIn.all staysStringB &&
-         (match r.strConst with | none => true | some v => staysStringB v)
+     | .string => countOKB r.minLen && countPosB r.maxLen
      | .num nk =>
        r.group == nk &&
        (if nk == .int32 || (nk == .int64 && int64Number) then
